@@ -342,3 +342,6 @@ def run(c, facts):
     c.shared(R5, c09.r2_scoped_id, 'C09.R2', facts)
     R3 = c.rule('C18.R3', 'IDENT-LOC: reference edits replace exactly the unqualified identifier (shared with C17.R2)')
     c.shared(R3, c17.r2_ident_loc, 'C17.R2', facts)
+
+
+EXPLANATION += ' (R16) OFFERED-THEN-EDITED: the Declaration and Variable arms of find_definition answer on every path and rename dispatches every finding, so a rename that prepareRename offered is never answered with no edits.'
